@@ -154,6 +154,9 @@ func vfExecMore(f []string, op string) (string, bool) {
 		}
 		vfBuiltin.restore()
 		defer vfBuiltin.restore()
+		// the same name is looked up before the registrations too (a miss, or the older node): what an
+		// earlier Lookup saw must not influence the answer after Extend
+		_ = Lookup(string(vfUnhex(f[2])))
 		if err := vfApplyScript(f[1]); err != nil {
 			return op + " => BADSCRIPT", true
 		}
